@@ -44,6 +44,10 @@ constexpr bool post_pwr4(u64 v, long p)
 // non-negative on [0, 2^31)
 constexpr bool post_sqrt_std(fixed_t x, fixed_t r)
   { if( x.v < 0 ) return vf_isnan(r); if( x.v >= (1l << 47) ) return vf_valid(r); return r.v >= 0 && vf_finite(r); }
+// C08 clause 3: floor-root result (abacus) and a result within one ulp (std::sqrt path) differ by at most 1
+constexpr bool pre_c08_sqrt_algos(long N, long ra, long rs)
+  { return N >= 0 && ra < (1l << 32) && rs < (1l << 32) && vf_floor_root(N, ra) && rs >= 0 && (rs == 0 || wide(rs - 1) * (rs - 1) < N) && N < wide(rs + 1) * (rs + 1); }
+constexpr bool lem_c08_sqrt_algos(long, long ra, long rs) { return ra - rs <= 1 && rs - ra <= 1; }
 constexpr bool pre_c13_small(fixed_t x) { return x.v >= 0 && x.v < (1l << 14); }
 constexpr bool pre_c13_neg(fixed_t x) { return x.v < 0 && vf_valid(x); }
 constexpr bool post_c13_neg(fixed_t, fixed_t r) { return vf_isnan(r); }
